@@ -366,6 +366,7 @@ impl World {
                         if let Some((_, s)) = self.hal.shares.range_mut(..=a).next_back() {
                             if a < s.paddr + s.len as u64 {
                                 s.posted_on = Some(q);
+                                s.last_queue = Some(q);
                             }
                         }
                     }
